@@ -645,3 +645,43 @@ def rf113(run):
                           (fn, F.src(sites[0])[:50] if sites else '?', ', '.join(resets[:3]) or 'the shared working state'),
                           line=sites[0]['l'] if sites else f.line)
     return n
+
+
+# ---------------------------------------------------------------------------------------------
+# RF153: the inliner rewrites no operand of the caller's own instructions
+# ---------------------------------------------------------------------------------------------
+
+RF153_WRITES = {
+    ('func_insn', 'ops[0].u.i'): 'renumbering of a label of the caller',
+    ('insn', 'ops[0].u.i'): 'renumbering of a label moved to the cold part',
+    ('func_top_alloca', 'ops[0]'): 'the merged top alloca gets a register of its own',
+    ('func_top_alloca', 'ops[1]'): 'the merged top alloca gets its size from a fresh temporary',
+}
+
+
+def rf153(run):
+    rule = 'RF153'
+    run.rule(rule, 'process_inlines changes the caller only by inserting copies of callee instructions and by the four operand writes of the '
+                   'frozen table (label renumbering, result register and size of the merged top alloca).  It assigns no other operand of an '
+                   'instruction that was already in the caller: a constant patched in a `mov n, 32` that precedes the alloca changes a '
+                   'register the program may read again')
+    tu = run.tu('mir')
+    f = tu.func('process_inlines')
+    run.functions_analysed.add(('mir', f.name))
+    n = 0
+    for x in f.walk():
+        if x['k'] in ('BinaryOperator', 'CompoundAssignOperator') and x['op'].endswith('=') and x['op'] not in ('==', '!=', '<=', '>='):
+            l = F.src(F.strip(x['c'][0])).replace(' ', '')
+            if '->ops[' not in l:
+                continue
+            base, rest = l.split('->', 1)
+            n += 1
+            ok = (base, rest) in RF153_WRITES or base in ('new_insn',)
+            run.ob(rule, (x['l'],), ok, {'site': '%s:%d' % (f.relfile(), x['l']), 'write': F.src(x)[:70], 'reason': RF153_WRITES.get((base, rest))})
+            if not ok:
+                run.violation(rule, f, 'operand of a caller instruction rewritten', '`%s` in process_inlines rewrites an operand of an instruction that '
+                              'belongs to the caller: a size the program keeps in its own register (`mov n, 32; alloca buf, n; … n …`) silently becomes '
+                              'the merged size of the inlined frames' % F.src(x)[:70], line=x['l'])
+    if n < 4:
+        raise F.AnalysisBroken('process_inlines: only %d operand writes found' % n)
+    return n
